@@ -18,6 +18,7 @@ full statement whenever a letter pair never scores less than its two letters aga
 -/
 import Biogo.Proofs.NWAffine
 import Biogo.Proofs.SWAffine
+import Biogo.Proofs.FittedAffine
 import Biogo.Proofs.NoAdjSuffices
 
 namespace Biogo.Properties.C08_aff
@@ -94,6 +95,44 @@ theorem swAffine_opt_partial (S : Matrix) (gapOpen : Int) (ho : gapOpen ≤ 0)
 example : swAlign (sc [[0, -1, 0], [-1, 7, -3], [-1, -3, 7]]) (-2) [1, 1] [1, 2, 1] =
     .ok [⟨0, 1, 0, 1, 7⟩, ⟨1, 1, 1, 2, -2⟩, ⟨1, 2, 2, 3, 7⟩] := by
   decide +kernel
+
+/-- **C08, FittedAffine, as far as it holds** (`_partial`).  The property: "the fitted aligners
+    return an alignment that consumes the whole query and is optimal among all such alignments
+    that end at the same reference position".  Full statement:
+
+        ∃ ps, fitAlign S open r q = .ok ps ∧ consumes the query ∧
+          (∀ a, IsFitted a r q (lastEnd ps).1 → scoreAff S open a ≤ total ps) ∧
+          (∃ a, IsFitted a r q (lastEnd ps).1 ∧ scoreAff S open a = total ps)
+
+    The upper bound is false of the code even over `NoAdj` alignments (`fittedAffine_not_opt`,
+    finding K3).  What holds for all matrices, gap-open values and non-empty sequences: the
+    result consumes the whole query (after fix K2b), ends inside the reference, and its total
+    is the affine score of a genuine alignment of the whole query with a reference segment
+    ending at the reported end, without adjacent opposite gaps — so the total never exceeds
+    the optimum for that end (`fittedOpt_optimal`). -/
+theorem fittedAffine_opt_partial (S : Matrix) (gapOpen : Int) (r q : List Nat) (hr : r ≠ []) (hq : q ≠ []) :
+    ∃ ps, fitAlign S gapOpen r q = .ok ps ∧
+      (Biogo.Spec.AffPairs.firstStart ps).2 = 0 ∧ (Biogo.Spec.AffPairs.lastEnd ps).2 = q.length ∧
+      (Biogo.Spec.AffPairs.lastEnd ps).1 ≤ r.length ∧
+      ∃ a, IsFitted a r q (Biogo.Spec.AffPairs.lastEnd ps).1 ∧ NoAdj a ∧ scoreAff S gapOpen a = total ps := by
+  obtain ⟨ps, hps, hle, a, hfit, hna, hsc⟩ := Biogo.Proofs.FittedAffine.fitAlign_sound S gapOpen r q hr hq
+  obtain ⟨_, _, h0, hC⟩ := Biogo.Proofs.TraceWF.fitAlign_wf S gapOpen r q ps hps
+  exact ⟨ps, hps, h0, hC, hle, a, hfit, hna, hsc⟩
+
+/-- Refutation of the full statement for `FittedAffine` (finding K3): unit costs, gap-open 0,
+    `r = a`, `q = aac`: the aligner reports `--a` / `aac` with total −3 for end 1, while
+    `a--` / `aac` also ends at 1, consumes the query, has no adjacent opposite gaps and scores −1
+    (the query gap after the match would have to be opened from the `left` layer of column 1,
+    which the free-prefix column never feeds, and only match-layer ends are considered). -/
+theorem fittedAffine_not_opt :
+    ∃ (M : List (List Int)) (gapOpen : Int) (r q : List Nat) (ps : List Pair) (a : Aln),
+      gapOpen ≤ 0 ∧ (∀ x, x < 3 → sc M x 0 ≤ 0 ∧ sc M 0 x ≤ 0) ∧
+      fitAlign (sc M) gapOpen r q = .ok ps ∧
+      IsFitted a r q (Biogo.Spec.AffPairs.lastEnd ps).1 ∧ NoAdj a ∧ total ps < scoreAff (sc M) gapOpen a :=
+  ⟨[[0, -1, -1], [-1, 1, -1], [-1, -1, 1]], 0, [1], [1, 1, 2],
+    [⟨0, 0, 0, 2, -2⟩, ⟨0, 1, 2, 3, -1⟩], [.m 1 1, .l 1, .l 2],
+    by decide, by decide, by decide +kernel, ⟨0, by decide, by decide, by decide, by decide⟩,
+    (by show noAdj _ = true; decide), by decide⟩
 
 /-- non-vacuity: the K1 witness itself -/
 example : nwAlign (sc [[0, 0, 0], [-2, 1, -10], [-2, -10, 1]]) (-2) [1] [2] = .ok [⟨0, 1, 0, 1, -10⟩] := by
